@@ -1265,9 +1265,11 @@ struct ArraysWorld : World {
 				int n = (int) (op.c % 7);
 				for (int i = 0; i < n; ++i) { int *v = ((op.c >> i) & 1) ? &cells[i] : 0; bool ok; { Sut s; ok = pa.insert(pa.length(), v); } if (!ok) fail("refused-valid", "pointer_array insert refused"); mp.push_back(v); }
 				pointer_array<int> pb; if (op.b & 1) { Sut s; pb = pa; }
-				{ Sut s; pa.compact(); }
+				{ Sut s(failn); pa.compact(); fired = g.fired; }
 				std::vector<int *> want; for (int *v : mp) if (v) want.push_back(v);
-				if ((size_t) pa.length() != want.size()) fail("wrong-content", "pointer_array compact leaves %ld entries, %zu are non-null", pa.length(), want.size());
+				// with a copy around compaction needs a buffer of its own: when that allocation fails the array keeps what it had
+				if (fired && (size_t) pa.length() == mp.size()) { bool same = true; for (size_t i = 0; i < mp.size(); ++i) if (pa.begin()[i] != mp[i]) same = false; if (same) want = mp; st.hit("probe:pointer_array_compact_allocfail"); }
+				if ((size_t) pa.length() != want.size()) fail("wrong-content", "pointer_array compact%s leaves %ld entries, %zu are non-null (of %zu)", fired ? " under an allocation failure" : "", pa.length(), want.size(), mp.size());
 				for (size_t i = 0; i < want.size(); ++i) if (pa.begin()[i] != want[i]) fail("wrong-content", "pointer_array compact changed the order at %zu", i);
 				if (op.b & 1) { if ((size_t) pb.length() != mp.size()) fail("other-handle-changed", "compact through one pointer_array changed the copy (%ld entries, was %zu)", pb.length(), mp.size()); for (size_t i = 0; i < mp.size(); ++i) if (pb.begin()[i] != mp[i]) fail("other-handle-changed", "compact through one pointer_array changed entry %zu of the copy", i); }
 				// swap of two entries: positions outside the data are refused, a copy taken before keeps its order
